@@ -40,8 +40,8 @@ func ReadArguments(reader io.Reader) (args []string, eof bool, err error) {
 			isSeparated = true
 			continue
 		} else if !isEscaped && ch == '\\' {
+			// the escape belongs to the word that the next byte starts or continues
 			isEscaped = true
-			isSeparated = false
 			continue
 		}
 		if isSeparated {
@@ -60,7 +60,7 @@ func ReadArguments(reader io.Reader) (args []string, eof bool, err error) {
 				if ch == '\\' {
 					isEscaped = true
 				} else {
-					*current += string(ch)
+					*current += string(buf[:1])
 					isEscaped = false
 				}
 			}
@@ -85,7 +85,7 @@ func ReadArguments(reader io.Reader) (args []string, eof bool, err error) {
 					break
 				}
 				if (ch >= 'a' && ch <= 'z') || (ch >= 'A' && ch <= 'Z') || ch == '_' {
-					eof += string(ch)
+					eof += string(buf[:1])
 				} else if ch != ' ' && ch != '\t' {
 					return nil, false, goaterr.Errorf("argument EOF sequence of multiline value can include only low and upper letters ")
 				}
@@ -99,7 +99,7 @@ func ReadArguments(reader io.Reader) (args []string, eof bool, err error) {
 				if _, err = reader.Read(buf); err != nil {
 					return nil, err == io.EOF, goaterr.Errorf(err.Error())
 				}
-				value += string(buf[0])
+				value += string(buf[:1])
 				if strings.HasSuffix(value, eof) {
 					value = value[:len(value)-len(eof)]
 					break
@@ -109,7 +109,7 @@ func ReadArguments(reader io.Reader) (args []string, eof bool, err error) {
 			args[len(args)-1] = value
 			continue
 		}
-		*current += string(ch)
+		*current += string(buf[:1])
 		isEscaped = false
 		isSeparated = false
 	}
